@@ -94,9 +94,22 @@ def audit(ctx):
                 ctx.broken.append(f"forbidden construct in {os.path.relpath(f, LEAN)}: {line.strip()[:120]}")
     pf = os.path.join(LEAN, "MhlProps", ctx.prop + ".lean")
     src = strip_comments(open(pf, encoding="utf-8").read())
-    ns = re.search(r"^namespace\s+([\w.]+)", src, re.M)
-    ns = ns.group(1) if ns else ""
-    names = re.findall(r"^\s*(?:protected\s+)?theorem\s+([\w.']+)", src, re.M)
+    # qualify every theorem by the namespaces open at its position
+    names = []
+    stack = []
+    for line in src.split("\n"):
+        m = re.match(r"^\s*namespace\s+([\w.]+)", line)
+        if m:
+            stack.append(m.group(1))
+            continue
+        m = re.match(r"^\s*end\s+([\w.]+)\s*$", line)
+        if m and stack and stack[-1] == m.group(1):
+            stack.pop()
+            continue
+        m = re.match(r"^\s*(?:protected\s+|private\s+)?theorem\s+([\w.'?!]+)", line)
+        if m:
+            names.append(".".join(stack + [m.group(1)]))
+    ns = ""
     ctx.theorems = names
     ctx.obligations = len(names)
     if not names:
@@ -105,7 +118,7 @@ def audit(ctx):
     tmp = os.path.join(LEAN, ".lake", f"audit_{ctx.prop}_{os.getpid()}.lean")
     os.makedirs(os.path.dirname(tmp), exist_ok=True)
     with open(tmp, "w") as f:
-        f.write(f"import MhlProps.{ctx.prop}\n" + "".join(f"#print axioms {ns + '.' if ns else ''}{n}\n" for n in names))
+        f.write(f"import MhlProps.{ctx.prop}\n" + "".join(f"#print axioms {n}\n" for n in names))
     rc, out = sh(["lake", "env", "lean", tmp], cwd=LEAN, timeout=1200)
     os.remove(tmp)
     if rc != 0:
@@ -113,12 +126,13 @@ def audit(ctx):
         return False
     # parse: "'X' depends on axioms: [a, b]" or "'X' does not depend on any axioms"
     found = {}
-    for m in re.finditer(r"'([^']+)' depends on axioms: \[([^\]]*)\]", out.replace("\n", " ")):
+    flat = re.sub(r"\s+", " ", out)
+    for m in re.finditer(r"'([\w.'?!]+?)' depends on axioms: \[([^\]]*)\]", flat):
         found[m.group(1)] = {a.strip() for a in m.group(2).split(",") if a.strip()}
-    for m in re.finditer(r"'([^']+)' does not depend on any axioms", out):
+    for m in re.finditer(r"'([\w.'?!]+?)' does not depend on any axioms", flat):
         found[m.group(1)] = set()
     for n in names:
-        full = (ns + "." if ns else "") + n
+        full = n
         ax = found.get(full)
         if ax is None:
             ok = False
